@@ -242,13 +242,76 @@ def tokpos(repo):
     return res
 
 
+def _assigns_name(fnode, name):
+    return any(isinstance(n, ast.Assign) and any(isinstance(t, ast.Name) and t.id == name for t in n.targets)
+               for n in walk_no_nested_funcs(fnode))
+
+
+def _method_chain(node, f):
+    """(root, [(method, [arg source])]) for root.m1(a).m2(b)...; a Name assigned once in f is followed."""
+    chain = []
+    seen = set()
+    while True:
+        if isinstance(node, ast.Call) and isinstance(node.func, ast.Attribute):
+            chain.append((node.func.attr, [ast.unparse(a) for a in node.args] + [f"{k.arg}={ast.unparse(k.value)}" for k in node.keywords]))
+            node = node.func.value
+            continue
+        if isinstance(node, ast.Name) and f is not None and node.id not in seen:
+            seen.add(node.id)
+            defs = [n.value for n in walk_no_nested_funcs(f) if isinstance(n, ast.Assign)
+                    and any(isinstance(t, ast.Name) and t.id == node.id for t in n.targets)]
+            if len(defs) == 1:
+                node = defs[0]
+                continue
+        break
+    return ast.unparse(node), list(reversed(chain))
+
+
+def linesplit(repo):
+    """Line numbers are assigned by the tokenizer and interpreted by the error printer; both must cut the source
+    text into lines in the same way, or positions point at the wrong text for inputs with unusual terminators."""
+    res = RuleResult("R-LINESPLIT")
+    m = repo.mod(TOK)
+    f = next((g for g in m.top_funcs() if _assigns_name(g.node, "indent_stack")), None)
+    if f is None:
+        raise AnalysisError("tokenizer: the function maintaining indent_stack was not found")
+    loops = [n for n in f.node.body if isinstance(n, ast.For)
+             and any(isinstance(x, ast.AugAssign) and isinstance(x.op, ast.Add) for x in n.body)]
+    if not loops:
+        raise AnalysisError("tokenizer: the per-line loop was not found")
+    tok_root, tok_chain = _method_chain(loops[0].iter, f.node)
+    params = [a.arg for a in f.node.args.args]
+    res.instances += 1
+    if tok_root not in params:
+        res.add(f"{TOK}|{f.name}|lines-root", f"the per-line loop iterates `{ast.unparse(loops[0].iter)}`, which is not derived "
+                f"from the source text parameter by method calls", TOK, loops[0].lineno, f.name)
+    er = repo.mod("compiler/util/error.py")
+    shown = []
+    for g in er.funcs.values():
+        for n in walk_no_nested_funcs(g.node):
+            if isinstance(n, ast.Call) and isinstance(n.func, ast.Attribute) and n.func.attr in ("splitlines", "split") \
+                    and isinstance(n.func.value, ast.Subscript) and "source" in ast.unparse(n.func.value.value):
+                shown.append((g, n, _method_chain(n, g.node)[1]))
+    if not shown:
+        raise AnalysisError("error.py: the place where source text is cut into lines for display was not found")
+    for g, n, chain in shown:
+        res.instances += 1
+        if chain != tok_chain:
+            res.add(f"{TOK}|{f.name}|linesplit", f"{f.name} cuts the source into lines with {tok_chain} but {g.qualname} "
+                    f"(error display) with {chain}: for line terminators the two treat differently (form feed, lone CR, "
+                    "U+2028, ...) tokens get line numbers that point at other text", TOK, loops[0].lineno, f.name)
+        else:
+            res.samples.append(f"{f.name} and {g.qualname}: {chain}")
+    res.analysed = [TOK, er.rel]
+    return res
+
+
 def indent(repo):
     res = RuleResult("R-INDENT")
     m = repo.mod(TOK)
     f = None
     for g in m.top_funcs():
-        src = m.seg(g.node)
-        if "indent_stack" in src and "splitlines" in src:
+        if _assigns_name(g.node, "indent_stack"):
             f = g
     if f is None:
         raise AnalysisError("tokenizer: the function maintaining indent_stack was not found")
